@@ -33,7 +33,7 @@ func (in *Interp) summarizable(fn *ssa.Function) bool {
 }
 
 func (in *Interp) analyzeSummary(fn *ssa.Function, si *summaryInfo) bool {
-	if len(fn.Blocks) == 0 || len(fn.Blocks) > 64 || fn.Recover != nil || len(fn.FreeVars) > 0 {
+	if len(fn.Blocks) == 0 || len(fn.Blocks) > 400 || fn.Recover != nil || len(fn.FreeVars) > 0 {
 		return false
 	}
 	sig := fn.Signature
@@ -45,8 +45,13 @@ func (in *Interp) analyzeSummary(fn *ssa.Function, si *summaryInfo) bool {
 	if sig.Recv() != nil && !scalarType(sig.Recv().Type()) {
 		return false
 	}
-	if sig.Results().Len() != 1 || !scalarType(sig.Results().At(0).Type()) {
+	if sig.Results().Len() < 1 || sig.Results().Len() > 4 {
 		return false
+	}
+	for i := 0; i < sig.Results().Len(); i++ {
+		if !scalarType(sig.Results().At(i).Type()) {
+			return false
+		}
 	}
 	n := 0
 	for _, b := range fn.Blocks {
@@ -79,6 +84,7 @@ func (in *Interp) analyzeSummary(fn *ssa.Function, si *summaryInfo) bool {
 				if !scalarType(x.Type()) {
 					return false
 				}
+			case *ssa.Extract:
 			case *ssa.Phi, *ssa.If, *ssa.Jump, *ssa.Return, *ssa.DebugRef:
 			case *ssa.Call:
 				callee := x.Call.StaticCallee()
@@ -96,7 +102,7 @@ func (in *Interp) analyzeSummary(fn *ssa.Function, si *summaryInfo) bool {
 			}
 		}
 	}
-	if n > 400 {
+	if n > 3000 {
 		return false
 	}
 	// acyclic? compute reverse post-order and check for back edges
@@ -145,7 +151,7 @@ func (in *Interp) applySummary(fn *ssa.Function, args []Value) (Value, bool) {
 	type edge struct{ from, to *ssa.BasicBlock }
 	edgeG := map[edge]*Term{}
 	guard := map[*ssa.BasicBlock]*Term{fn.Blocks[0]: tb.True}
-	var result *Term
+	var result []*Term
 	for _, b := range si.order {
 		g, ok := guard[b]
 		if !ok {
@@ -190,6 +196,8 @@ func (in *Interp) applySummary(fn *ssa.Function, args []Value) (Value, bool) {
 				env[x] = in.convert(get(x.X), x.X.Type(), x.Type())
 			case *ssa.ChangeType:
 				env[x] = get(x.X)
+			case *ssa.Extract:
+				env[x] = get(x.Tuple).(TupleV)[x.Index]
 			case *ssa.Call:
 				callee := x.Call.StaticCallee()
 				cargs := make([]Value, len(x.Call.Args))
@@ -209,11 +217,15 @@ func (in *Interp) applySummary(fn *ssa.Function, args []Value) (Value, bool) {
 			case *ssa.Jump:
 				edgeG[edge{b, b.Succs[0]}] = g
 			case *ssa.Return:
-				v := get(x.Results[0]).(*Term)
 				if result == nil {
-					result = v
+					result = make([]*Term, len(x.Results))
+					for i, r := range x.Results {
+						result[i] = get(r).(*Term)
+					}
 				} else {
-					result = tb.Ite(g, v, result)
+					for i, r := range x.Results {
+						result[i] = tb.Ite(g, get(r).(*Term), result[i])
+					}
 				}
 			}
 		}
@@ -221,5 +233,12 @@ func (in *Interp) applySummary(fn *ssa.Function, args []Value) (Value, bool) {
 	if result == nil {
 		return nil, false
 	}
-	return result, true
+	if len(result) == 1 {
+		return result[0], true
+	}
+	tv := make(TupleV, len(result))
+	for i, r := range result {
+		tv[i] = r
+	}
+	return tv, true
 }
